@@ -54,7 +54,7 @@ ASSUMPTIONS = [
     "mean over 1 + N_i and in s_ij); a row summing to zero is outside; weights may be written as integer tokens ('1 2 1')",
     "Nmax below a coordination number: `Neighborlist[:, 0] > Nmax` in sij_ql_Ql (ValueError 'increase Nmax') is unreachable - read_neighbors already stores min(cn, Nmax) and the "
     "first Nmax entries, which is what its docstring ('the maximum number of neighboring particles to consider') says; the check demands that truncation, never the exception",
-    "storage forms (round 4): ppp as list / tuple / bool / int32 array, positions as float32 (compared at 2e-6: the bond differences are formed in float32; thresholded and binned "
+    "storage forms (round 4): ppp as list / tuple / bool / int32 array, positions as float32 (compared at 1e-4: the bond differences are formed in float32; thresholded and binned "
     "quantities are not demanded there), Fortran-ordered or strided position arrays, l as np.int64, Nmax as np.int32 are all accepted like the canonical forms; unwrapped "
     "coordinates (whole cell vectors added along periodic axes) and a dilation of cell and positions by 2^-33 / 2^27 leave q_lm, q_l, w_l, s_ij unchanged; spatial_corr of the "
     "dilated cells is left to C13; explicit zeros for options with defaults (c = 0, dt = 0.0) are values, not requests for the default",
@@ -1427,7 +1427,8 @@ def run_types(case):
     na = np.int32(nmax) if form == "nmax_npint" else nmax
     b = boo_3d(snaps, la, "c09_ty_nb.dat", weightsfile="c09_ty_w.dat" if wts is not None else None, ppp=pa, Nmax=na)
     # float32 positions: the reference sees the float32 numbers; the bond differences are formed in float32 by the library (1e-7 relative)
-    rt, at = (2e-6, 2e-6) if form == "pos_f32" else (1e-9, 1e-11)
+    # float32 positions of magnitude ~10 carry ~1e-6 absolute error; a bond angle error of ~2e-6 is multiplied by l (<= 12) in exp(i l theta) / Y_lm
+    rt, at = (1e-4, 1e-4) if form == "pos_f32" else (1e-9, 1e-11)
     ref = [B.ref_qlm(np.asarray(keep[f], float), Hs[f], ppp, nls[f], l, wts[f] if wts is not None else None) for f in range(F)]
     qs, Qs = np.array([r[0] for r in ref]), np.array([r[1] for r in ref])
     where = f"form {form}, frames {case['topo']}, cell {case['cells'][0]}, ppp {ppp}, l={l}"
@@ -1699,7 +1700,7 @@ def subs(tier, seed):
             bounds={"name_forms": FILE_NAMES}),
         Sub("C09.types", gen_types, run_types,
             rule="STORAGE / ARGUMENT FORMS: 5 two-frame trajectories (topology classes, second frame with an exact zero weight per row) x forms {reference form, ppp as list / tuple / bool array / int32 array, "
-                 "positions as float32 (2e-6) / Fortran-ordered / strided view, cell matrix AND positions Fortran-ordered (both must come back unchanged), l as np.int64 (+ w_W_cap), Nmax as np.int32, particles at the "
+                 "positions as float32 (1e-4) / Fortran-ordered / strided view, cell matrix AND positions Fortran-ordered (both must come back unchanged), l as np.int64 (+ w_W_cap), Nmax as np.int32, particles at the "
                  "origin / exactly on box faces, UNWRAPPED coordinates shifted by whole cell vectors n.H (n in {0,+2,-3,+4,-2} per particle and periodic axis), cell and positions DILATED by 2^-33 / 2^27 (+ w_W_cap; spatial_corr "
                  "left to C13), all weights x 2^-33 / 1e-9 / 2^27 (scale-free), explicit zero options (sij c = 0, time_corr dt = 0.0 / 0), timesteps offset by 2e9} x l in " + ("{3,6,11}" if q else "2..12")
                  + " x {orth, tri} x masks {111, 101 for the ppp forms} x {unweighted, weighted (integer tokens in the reference form)}; q_lm, Q_lm, q_l, Q_l, s_ij, spatial_corr (ppp reaches conditional_gr), "
